@@ -55,6 +55,7 @@ EXPECT = {
     'DSP': [('FixtureHarm::Value', 'Engine<FULL>')],
     'SW1': [('FixtureLint::Use', 'Cell(m,n)')],
     'OV1': [('FixtureLint::LengthOk', 'product@')],
+    'X7r': [('FixtureShared::HalfFilled', 'alpha_')],
     'K7': [('FixtureRaster::probe', 'B1 filepos column')],
     'W1': [('FixtureShared::HalfWritten', 'northp')],
     'X6': [('FixtureShared::Spin', 'loop@')],
@@ -118,6 +119,9 @@ def run_controls(rules):
         elif r == 'OV1':
             from .rules import lint
             res = lint.rule_OV1(fx, None)[0]
+        elif r == 'X7r':
+            from .rules import relidx
+            res = relidx.rule_X7r(fx, ('controls.cpp',), values=range(0, 6))[0]
         elif r == 'K7':
             from .rules import geoidbounds
             res = geoidbounds.rule_K7(fx, cls=NS + 'FixtureRaster', entries=('probe',), with_ctor=False)[0]
